@@ -173,7 +173,7 @@ package subscriptions
 //@   ensures forall r *Node :: {r.#tree} old(allocated(r)) && r != unbox(pb, *Node) ==> r.#tree == old(r.#tree) && r.Data == old(r.Data) && r.Children == old(r.Children)
 //@   ensures err != nil && typeis(pb, *Node) ==> (forall r *Node :: {r.#tree} !old(allocated(r)) || r == unbox(pb, *Node) ==> r.#tree == old(r.#tree))
 //@   ensures typeis(pb, *Node) ==> st_wf0(nil)
-//@   modifies newobjs(unbox(pb, *Node)), newmaps(unbox(pb, *Node).Children), newrows(bytes)
+//@   modifies when pb is *Node: newobjs(unbox(pb, *Node)), when pb is *Node: newmaps(unbox(pb, *Node).Children), newrows(bytes)
 
 //@ func NewTree() (r Tree)
 //@   requires st_wf0(nil)
